@@ -30,6 +30,9 @@ structure Elem where
   pseudo : Option String
   /-- attributes of `element` (`element.get(name)`), as far as computing functions read them -/
   attrs : List (String × Val) := []
+  /-- `character_ratio(style, 'x')`, `character_ratio(style, '0')` for *this* style (Pango's
+  measurement of its own font properties); `none` = the defaults given to the chain functions -/
+  ratios : Option (Rat × Rat) := none
   deriving Repr, Inhabited
 
 /-- `parent_style[key]`; `none` when `parent_style is None`. -/
@@ -85,9 +88,8 @@ def specified123 (e : Elem) (parent : ParentGet) (key : String) : Except CErr (V
     | some (.val v) => (v, none)
     | some (.pending r) => (.kw "<pending>", some r)
     | none => (if isInherited key || isCustom key then .kw "inherit" else .kw "initial", none)
-  let value1 := if value0.isKw "inherit" && parent.isNone then Val.kw "initial" else value0
-  let (value2, stored2) : Val × Option Val ← match pending with
-    | none => pure (value1, none)
+  let (value1, stored2) : Val × Option Val ← match pending with
+    | none => pure (value0, none)
     | some (some v) => pure (v, none)
     | some none =>
       if isInherited key && parent.isSome then do
@@ -96,6 +98,9 @@ def specified123 (e : Elem) (parent : ParentGet) (key : String) : Except CErr (V
       else do
         let v ← initialValue key
         pure (v, if initialNotComputed.contains key then none else some v)
+  -- since commit 582f36b the root test comes *after* the pending values are solved:
+  -- `if value == 'inherit' and parent_style is None: value = 'initial'`
+  let value2 := if value1.isKw "inherit" && parent.isNone then Val.kw "initial" else value1
   if value2.isKw "initial" then do
     let v ← if isCustom key then pure (Val.strs []) else initialValue key
     pure (v, if initialNotComputed.contains key then stored2 else some v)
@@ -143,7 +148,9 @@ def fontEnv (e : Elem) (parent : ParentGet) (rootFontSize : Unit → Except CErr
   rootFontSize := rootFontSize,
   parentFontSize := parent.map (fun get => fun _ => do numOf (← get "font_size")),
   parentFontWeight := parent.map (fun get => fun _ => get "font_weight"),
-  exRatio := exRatio, chRatio := chRatio,
+  -- `character_ratio` depends on the style's own font properties only
+  exRatio := match e.ratios with | some r => r.1 | none => exRatio,
+  chRatio := match e.ratios with | some r => r.2 | none => chRatio,
   get := fun _ => .error (.unsupported "style[key] read while computing font_size"),
   specified := fun _ => .error (.unsupported "specified read while computing font_size"),
   isRoot := parent.isNone, pseudo := e.pseudo.isSome,
